@@ -131,6 +131,33 @@ def conversions(run, seed, idx, geometry, pbp):
     for name, m in masks.items():
         if not np.array_equal(np.asarray(m)[safe_k], want_mask[safe_k]):
             V("dtyimask:" + name, "%s disagrees with the in-beam law after rounding" % name)
+    # ---- one omega buffer re-used and changed in place between calls (second half-turn of a 360 degree scan, a loop
+    #      over scans filling one array): every function taking angles must use the values the array holds NOW
+    ob = om.copy()
+    for rep in range(3):
+        sb, cb = np.sin(np.radians(ob)), np.cos(np.radians(ob))
+        d_b = geometry.dty_values_grain_in_beam(sx, sy, y0, ob)
+        _, ly_b = geometry.sample_to_lab_sincos(sx, sy, y0, d_b, sb, cb)
+        ok = close(ly_b, 0.0, scale)
+        ok = ok and close(geometry.x_y_y0_omega_to_dty(ob, sx, sy, y0), d_b, scale)
+        ok = ok and close(geometry.step_omega_to_dty(si, sj, ob, y0, ystep), d_b, scale)
+        ok = ok and close(geometry.recon_omega_to_dty(ri, rj, ob, y0, shape, ystep), d_b, scale)
+        ok = ok and close(geometry.sample_to_lab(sx, sy, y0, dty, ob), geometry.sample_to_lab_sincos(sx, sy, y0, dty, sb, cb), scale)
+        ok = ok and close(geometry.lab_to_sample(lx, ly, y0, dty, ob), geometry.lab_to_sample_sincos(lx, ly, y0, dty, sb, cb), scale)
+        mk_a = geometry.dtyimask_from_sample(sx[k], sy[k], ob, dtyi_obs, y0, ystep, ymin)
+        mk_b = geometry.dtyimask_from_sample_sincos(sx[k], sy[k], sb, cb, dtyi_obs, y0, ystep, ymin)
+        fr_b = (geometry.dty_values_grain_in_beam_sincos(sx[k], sy[k], y0, sb, cb) - ymin) / ystep
+        sf_b = np.abs(fr_b - np.floor(fr_b) - 0.5) > 1e-6
+        ok = ok and np.array_equal(np.asarray(mk_a)[sf_b], np.asarray(mk_b)[sf_b])
+        run.count("reused_angle_buffer_calls")
+        if not ok:
+            V("angles:stale-after-in-place-change", "after the omega array was changed in place (step %d) a function taking angles "
+              "in degrees disagrees with its sin/cos variant / the in-beam law for the new angles" % rep)
+            break
+        if rep == 0:
+            ob += 180.0
+        else:
+            ob[:] = r.uniform(-720, 720, n)
     # numba voxel selection used by point-by-point refinement
     xi0, yi0 = float(sx[k]), float(sy[k])
     idxs, ydist = pbp.get_voxel_idx(y0, xi0, yi0, so, co, dty, ystep)
@@ -493,7 +520,7 @@ def check(run, replay=None):
             reconstruction(run, replay["seed"], cs["index"], geometry, roi_iradon)
         run.nontrivial.update(["replay", "replay2"])
         return
-    nc, nr, nv = (120, 40, 60) if run.tier == "quick" else (4000, 1500, 3000)
+    nc, nr, nv = (120, 40, 60) if run.tier == "quick" else (4000, 1500, 1200)
     for i in range(nc):
         conversions(run, run.seed, i, geometry, pbp)
         geometry_extras(run, run.seed, i, geometry)
@@ -503,6 +530,7 @@ def check(run, replay=None):
         variants(run, run.seed, i, geometry, roi_iradon)
     run.extra["workers_tested"] = [1, 2, 3, 4, 5, 7, 8, 13, 16, None]
     run.require_counter("conversion_samples", 5000)
+    run.require_counter("reused_angle_buffer_calls", 100)
     run.require_counter("reconstructions", 20)
     run.require_counter("worker_runs", 50)
     run.require_counter("sine_fits_checked", 100)
